@@ -2,11 +2,15 @@
 (* spec -> impl: every namespace-data construction with the demanded verdict, the design's prediction
    and the brute-force scan the square's own output must equal. *)
 EXTENDS SqNs, Json
-EntJ(e) == [kind |-> e.kind, prow |-> e.prow, lo |-> e.lo, hi |-> e.hi, dl |-> e.dl, dh |-> e.dh,
+EntJ(e) == [shares |-> e.shares, kind |-> e.kind, prow |-> e.prow, lo |-> e.lo, hi |-> e.hi, dl |-> e.dl, dh |-> e.dh,
             n |-> Len(e.shares), alt |-> (Len(e.shares) > 0 /\ e.shares[1][1] = "alt")]
 ScanJ(q, t) == [j \in 1..Len(RowsFor(q, t)) |->
                   LET cs == ColsOf(q, RowsFor(q, t)[j], t) IN IF cs = {} THEN <<0, 0>> ELSE <<MinOf(cs), MaxOf(cs) + 1>>]
-Out(k) == [k |-> K, cls |-> k.cls, mut |-> k.mut, q |-> k.q, t |-> k.t, rows |-> RowsFor(k.q, k.t),
+OutS(k) == [k |-> K, cls |-> k.cls, mut |-> k.mut, q |-> k.q, t |-> k.t, row |-> k.row, e |-> EntJ(k.e),
+            covered |-> Covers(k.q, k.row, k.t),
+            demand |-> SingleDemand(k.q, k.e, k.row, k.t), predict |-> Verdict(RowVerify(k.q, k.e, k.row, k.t))]
+Out(k) == IF k.cls = "single" THEN OutS(k) ELSE
+          [k |-> K, cls |-> k.cls, mut |-> k.mut, q |-> k.q, t |-> k.t, rows |-> RowsFor(k.q, k.t),
            scan |-> ScanJ(k.q, k.t), es |-> [j \in 1..Len(k.es) |-> EntJ(k.es[j])],
            demand |-> NsDemand(k.q, k.t, k.es), predict |-> Verdict(NsCode(k.q, k.t, k.es))]
 GenNext == Next /\ PrintT(ToJson(Out(kase')))
